@@ -22,7 +22,12 @@ TARGET = "x86_64-sysv"
 # rendering a history as a translation unit
 def specifiers(d):
     sc = {"none": "", "static": "static ", "extern": "extern "}[d["sc"]]
-    return "%s%s%sint " % (sc, "_Thread_local " if d["tls"] else "", "inline " if d["inl"] else "")
+    nr = d.get("nr", "") if d["kind"] == "func" else ""
+    if d["inl"]:
+        fs = {"": "inline ", "after": "inline _Noreturn ", "before": "_Noreturn inline ", "dup": "inline inline "}[nr]
+    else:
+        fs = "_Noreturn " if nr in ("after", "before") else ""
+    return "%s%s%sint " % (sc, "_Thread_local " if d["tls"] else "", fs)
 
 
 def declarator_text(d, i, sfx=""):
@@ -86,7 +91,7 @@ def render(hist, skip=(), sfx=""):
 def canon_hist(hist):
     def one(d):
         return "%s/%s%s%s%s/%s/%s/%s" % ("".join(map(str, d["path"])) or "file", d["sc"], "+tls" if d["tls"] else "",
-                                        "+inline" if d["inl"] else "", "+asm" if d["asm"] else "", d["kind"], d["def"], d["id"]) + (",joined" if d.get("join") else "")
+                                        ("+inline" if d["inl"] else "") + ("+noreturn-" + d["nr"] if d.get("nr") else ""), "+asm" if d["asm"] else "", d["kind"], d["def"], d["id"]) + (",joined" if d.get("join") else "")
     return "[" + ", ".join(one(d) for d in hist) + "]"
 
 
@@ -770,6 +775,8 @@ def run(ctx):
     # B4. the predefined identifier __func__: 0..4 uses (evaluated / under sizeof only) in function bodies and nested
     #     blocks of one or several functions, next to block-scope statics: one local object per function that evaluates it
     stream(ctx, objdir, "MC_Linkage_fn_quick.cfg", "f", stats, workers=8)
+    # B5. function-specifier lists: inline / _Noreturn in both orders, repeated inline, on every file-scope function form
+    stream(ctx, objdir, "MC_Linkage_fspec_quick.cfg", "n", stats, workers=8)
     # C. random multi-identifier units
     r3, units3 = stream(ctx, objdir, "MC_Linkage_sim.cfg", "s", stats, simulate=1 if q else 24, depth=12, keep_units=100 if q else 400, workers=4 if q else 8)   # num is per worker; TLC checks (and so emits) every generated successor
     # vacuity guard: every rule of the specification and every named deviation occurred
